@@ -155,14 +155,18 @@ static void List_New(var self, var args) {
   
 }
 
+static void List_Unlink(struct List* l, var item);
+
 static void List_Clear(var self) {
   struct List* l = self;
-  var item = l->head;
-  while (item) {
-    var next = *List_Next(l, item);
-	  destruct(item);
+  /* one node at a time, each unlinked before it is freed: an element's
+  ** destructor may start a collection, which walks this list */
+  while (l->head) {
+    var item = l->head;
+    destruct(item);
+    List_Unlink(l, item);
     List_Free(l, item);
-    item = next;
+    l->nitems--;
   }
   l->tail = NULL;
   l->head = NULL;
